@@ -825,6 +825,7 @@ func (c *fCtx) mutate(t *fTarget, op string, rng *gen.Rand, faulted bool, f func
 		return
 	}
 	if failed {
+		c.checkThirdState(t, op, fired, before, t.fresh)
 		changed := before.curOK() != t.fresh.curOK() || !bytes.Equal(before.cur, t.fresh.cur) || len(before.all) != len(t.fresh.all)
 		if changed {
 			c.count("faulted_failed_operation_took_effect_in_storage", 1)
@@ -833,6 +834,113 @@ func (c *fCtx) mutate(t *fTarget, op string, rng *gen.Rand, faulted bool, f func
 		}
 	}
 	return
+}
+
+// checkThirdState: after a FAILED generate / rotate / destroy the storage, as a fresh handle reads it, must be in a state
+// the reference model allows for this key — the state before the operation or the state after it ("the current key of
+// each kind is the most recently generated surviving one, every surviving older key is still offered ... newest-first";
+// "removes that key and no other") — never a third one: no current key although the current key was not destroyed, an
+// older key promoted to current, a surviving key no longer offered, the surviving keys re-ordered, get-all failing.
+// Tolerated because a fresh handle judges them as surviving keys all the same: a key listed twice (v1: the history copy
+// made before the failed rename) and a new key that is listed but not (yet) current (v2).
+func (c *fCtx) checkThirdState(t *fTarget, op, fired string, before, after fView) {
+	if after.curPanic != "" || after.allPanic != "" || before.curPanic != "" || before.allPanic != "" {
+		return // reported by readStorage
+	}
+	c.count("faulted_third_state_checked", 1)
+	in := func(l [][]byte, v []byte) bool { return fIn(l, v) }
+	dedupe := func(l [][]byte) [][]byte {
+		var out [][]byte
+		for _, v := range l {
+			if !fIn(out, v) {
+				out = append(out, v)
+			}
+		}
+		return out
+	}
+	var bAll, aAll [][]byte
+	hasAll := t.kind.HasGetAll() && before.allOK()
+	if hasAll {
+		bAll = dedupe(before.all)
+		if after.allOK() {
+			aAll = dedupe(after.all)
+		}
+	}
+	known := func(v []byte) bool { // a value the storage offered before the operation
+		return before.curOK() && bytes.Equal(before.cur, v) || in(bAll, v)
+	}
+	what := ""
+	destroy := strings.HasPrefix(op, "destroy")
+	switch {
+	case !destroy || op == "destroy-rotated":
+		// rotation (the current key stays or a NEW key becomes current) / destruction of a rotated key (current key untouched)
+		switch {
+		case before.curOK() && !after.curOK():
+			what = "no-current-key(" + errClass(after.curErr) + ")-although-the-current-key-was-not-destroyed"
+		case before.curOK() && !bytes.Equal(before.cur, after.cur) && (known(after.cur) || destroy):
+			what = "another-key-became-current"
+		case !before.curOK() && after.curOK() && (known(after.cur) || destroy):
+			what = "an-older-key-became-current"
+		}
+	default:
+		// destroy-current: the current key stays, or it is gone (get-current fails or falls back to a surviving key)
+		if after.curOK() && !known(after.cur) {
+			what = "a-value-never-offered-before-became-current"
+		}
+	}
+	if what == "" && hasAll {
+		lost := 0
+		for _, v := range bAll {
+			if after.allOK() && !in(aAll, v) {
+				if op == "destroy-current" && before.curOK() && bytes.Equal(v, before.cur) {
+					continue
+				}
+				lost++
+			}
+		}
+		allowed := 0
+		if op == "destroy-rotated" {
+			allowed = 1
+		}
+		others := 0 // keys offered before, other than the current one
+		for _, v := range bAll {
+			if !(before.curOK() && bytes.Equal(v, before.cur)) {
+				others++
+			}
+		}
+		switch {
+		case !after.allOK() && op == "destroy-current" && !after.curOK() && others == 0:
+			// the destruction took effect and no key survives: get-all has nothing to offer (an error is accepted, as
+			// in the first layer)
+		case !after.allOK():
+			what = "get-all-fails(" + errClass(after.allErr) + ")-although-it-worked-before"
+		case lost > allowed:
+			what = "a-surviving-key-is-no-longer-offered"
+		default:
+			// the keys offered before keep their relative order
+			var order []int
+			for _, v := range aAll {
+				for i, b := range bAll {
+					if bytes.Equal(b, v) {
+						order = append(order, i)
+					}
+				}
+			}
+			if !sort.IntsAreSorted(order) {
+				what = "surviving-keys-re-ordered"
+			}
+		}
+	}
+	if what == "" {
+		return
+	}
+	fault := fired
+	if fault == "" {
+		fault = "none(failed-without-fault)"
+	}
+	sig := fmt.Sprintf("%s kind=%s op=%s fault=%s check=third-state:%s", c.s.cfg.fName(), t.kind, op, fault, what)
+	c.logf("  !! %s", sig)
+	c.r.Violation(sig, c.detail(t, map[string]interface{}{"storage_before_the_operation": t.render(before), "storage_after_the_failed_operation": t.render(after)}))
 }
 
 // fUsualCalls: about how many storage calls (v2: data calls) the operation makes; only used to draw the fault index
@@ -1182,6 +1290,7 @@ func runFaultedHistories(r *ev.Run, workers int) {
 	r.RequireAtLeast("faulted_consistent_view_checked_after_a_failed_operation", q(200, 4000))
 	r.RequireAtLeast("faulted_after_reset_or_reopen_checked_after_a_failed_operation", q(50, 1000))
 	r.RequireAtLeast("faulted_earlier_value_decrypt_checked", q(50, 1000))
+	r.RequireAtLeast("faulted_third_state_checked", q(200, 4000))
 	r.RequireSetAtLeast("faulted_configs", 6)
 	r.RequireSetAtLeast("faulted_kinds", len(ksrig.ModelKinds))
 	r.RequireSetAtLeast("faulted_failed_operation_kinds", 4)
